@@ -11,6 +11,7 @@ package c03
 import (
 	"bytes"
 	"encoding/binary"
+	"encoding/hex"
 	"encoding/json"
 	"fmt"
 	"os"
@@ -41,7 +42,7 @@ import (
 // ---------------------------------------------------------------------------
 // documents, addressed by a small integer so that a case is replayable
 
-const nDocs = 46
+const nDocs = 48
 
 // Documents numbered dynBase and above are made on demand, each with private operators of its own (inside a
 // BX/EX compatibility section, ISO 32000-1 7.8.2, Table 32): the first parse of each is the first time the process
@@ -97,6 +98,7 @@ func navDoc(v int) []byte {
 		fmt.Fprintf(&b, "<div class=%q id=%q><p>text %d of document %d in class %s id %s</p></div>", cl, ids[k], k, v, cl, ids[k])
 		fmt.Fprintf(&b, "<div id=%q><p>only id %d.%d</p></div><div class=%q><p>only class %d.%d</p></div>", ids[k]+"b", v, k, cl, v, k)
 	}
+	fmt.Fprintf(&b, "<table><tr><th>command</th><th>note %d</th></tr><tr><td>ls | wc -l</td><td>a\\b</td></tr><tr><td>x || y</td><td>two<br>lines</td></tr></table>", v)
 	b.WriteString("</body></html>")
 	return []byte(b.String())
 }
@@ -150,6 +152,20 @@ func getDoc(i int) *docSpec {
 	switch {
 	case i >= dynBase:
 		d = &docSpec{kind: "pdf", ext: ".pdf", data: dynDoc(i)}
+	case i >= 46:
+		// the content of page 2 sits behind two filters and the second one fails (46: the unsupported LZWDecode, 47: a
+		// Flate layer that is no zlib data); what the first filter yields is itself a readable content stream. A reader
+		// that remembers the half-decoded bytes shows them on the second visit
+		second := []string{"/LZWDecode", "/FlateDecode"}[i-46]
+		d = &docSpec{kind: "pdf", ext: ".pdf", data: rawpdf.Build(map[int]string{
+			1: "<< /Type /Catalog /Pages 2 0 R >>",
+			2: "<< /Type /Pages /Kids [3 0 R 4 0 R] /Count 2 /MediaBox [0 0 612 792] /Resources << /Font << /F1 5 0 R >> >> >>",
+			3: "<< /Type /Page /Parent 2 0 R /Contents 6 0 R >>",
+			4: "<< /Type /Page /Parent 2 0 R /Contents 7 0 R >>",
+			5: "<< /Type /Font /Subtype /Type1 /BaseFont /Helvetica >>",
+			6: rawpdf.Stream("", "BT /F1 12 Tf 72 700 Td (Readable page) Tj ET"),
+			7: rawpdf.Stream("/Filter [/ASCIIHexDecode "+second+"]", strings.ToUpper(hex.EncodeToString([]byte("BT /F1 12 Tf 72 700 Td (Undecodable) Tj ET")))+">"),
+		}, 1)}
 	case i >= 44:
 		// page 1 shows text with a font /F1 that has a ToUnicode map; page 2 also says /F1, but there it is a font
 		// the text extractor does not load (a Type 3 font; or no font of that name at all): whatever page 2 yields
@@ -341,6 +357,32 @@ func runOp(doc int, op string) string {
 			fmt.Fprintf(&b, "mode %v err=%v %v\n%s\n--\n%s\n", mode, e1, e2, t, m)
 			r.Close()
 		}
+		// one reader asked several times: every answer must be the one a fresh reader gives
+		fresh := func() *htmldoc.Reader {
+			r, _ := htmldoc.OpenReader(bytes.NewReader(d.data))
+			return r
+		}
+		if one := fresh(); one != nil {
+			dump := func(r *htmldoc.Reader) string {
+				doc, err := r.Document()
+				if err != nil || doc == nil {
+					return fmt.Sprint(err)
+				}
+				var sb strings.Builder
+				for _, pg := range doc.Pages {
+					for _, el := range pg.Elements {
+						fmt.Fprintf(&sb, "%T %+v\n", el, el)
+					}
+				}
+				return sb.String()
+			}
+			m1, _ := one.Markdown()
+			t1, _ := one.Text()
+			d1 := dump(one)
+			m2, _ := one.Markdown()
+			t0, _ := fresh().Text()
+			fmt.Fprintf(&b, "one reader: second Markdown() equal=%v, Text() after Markdown() equal=%v, Document() after Markdown() equal=%v\n", m1 == m2, t1 == t0, d1 == dump(fresh()))
+		}
 		return b.String()
 	case "chunkops":
 		// rendering a chunk collection must not change it: the same export before and after
@@ -521,6 +563,9 @@ func compare(where string, doc int, op, got string) error {
 	want, err := baselineOf(doc, op)
 	if err != nil {
 		return err
+	}
+	if op == "htmlnav" && strings.Contains(got, "equal=false") {
+		return fmt.Errorf("%s: one htmldoc.Reader of document %d gives different answers when asked again: %.300s", where, doc, got[strings.Index(got, "one reader:"):])
 	}
 	if op == "sharedreader" && strings.Contains(got, "equal=false") {
 		return fmt.Errorf("%s: extractions of document %d through one shared reader.Reader interfere with each other:\n%s", where, doc, got)
